@@ -241,6 +241,21 @@ func clientsFor(transport string) clients {
 // ---------------------------------------------------------------------------------
 // credentials
 
+// invalidBasic lists the credential kinds above that must fail Basic authentication.
+var invalidBasic = []string{"emptypw", "unknown-emptypw", "anonymous", "emptyuser", "otherspw", "pwprefix", "pwsuffix", "usercase", "nocolon", "notbase64"}
+
+// rootLike: a user name that is not configured but that a policy may well name.
+func rootLike(c acase) string { return "mallory" }
+
+func otherUser(u string) string {
+	for _, o := range []string{"alice", "bob", "carol", "dave"} {
+		if o != u && passwords[o] != "" && passwords[o] != passwords[u] {
+			return o
+		}
+	}
+	return u
+}
+
 func basicHeader(user, pw string) string {
 	return "Basic " + base64.StdEncoding.EncodeToString([]byte(user+":"+pw))
 }
@@ -268,6 +283,28 @@ func callMetadata(c acase) metadata.MD {
 		}
 	case "malformed":
 		md.Set("authorization", "Bearer "+base64.StdEncoding.EncodeToString([]byte(c.User+":"+passwords[c.User])))
+	// further Basic credentials that do not validate (sent as they are under every
+	// accounts kind; a proxy configuration does not read them)
+	case "emptypw":
+		md.Set("authorization", basicHeader(c.User, ""))
+	case "unknown-emptypw": // an unconfigured user the policy grants everything to, with an empty password
+		md.Set("authorization", basicHeader(rootLike(c), ""))
+	case "anonymous": // what the grip client sends when no user is set
+		md.Set("authorization", basicHeader("", ""))
+	case "emptyuser":
+		md.Set("authorization", basicHeader("", passwords[c.User]))
+	case "otherspw":
+		md.Set("authorization", basicHeader(c.User, passwords[otherUser(c.User)]))
+	case "pwprefix":
+		md.Set("authorization", basicHeader(c.User, passwords[c.User][:len(passwords[c.User])-1]))
+	case "pwsuffix":
+		md.Set("authorization", basicHeader(c.User, passwords[c.User]+" "))
+	case "usercase":
+		md.Set("authorization", basicHeader(strings.ToUpper(c.User[:1])+c.User[1:], passwords[c.User]))
+	case "nocolon":
+		md.Set("authorization", "Basic "+base64.StdEncoding.EncodeToString([]byte(c.User)))
+	case "notbase64":
+		md.Set("authorization", "Basic "+c.User+":"+passwords[c.User])
 	case "noheader":
 	default:
 		panic("unknown credential kind " + c.Cred)
